@@ -3,7 +3,6 @@ package main
 import (
 	"go/constant"
 	"go/token"
-	"strings"
 
 	"golang.org/x/tools/go/ssa"
 )
@@ -113,25 +112,8 @@ func (p *Prog) splices(fn *ssa.Function) []*spliceSite {
 		if nIf == 0 {
 			continue // straight-line helper: handled by term inlining
 		}
-		// only helpers that decide, not helpers that act: a helper with a mutating effect stays
-		// opaque (its result matches no tabled atom, so whatever depends on it fails closed)
-		mutates := false
-		for _, e := range p.closure(fn) {
-			if e.Anchor != call {
-				continue
-			}
-			switch e.Kind {
-			case "W", "D", "EVENT", "FORBIDDEN", "UNRESOLVED":
-				mutates = true
-			case "LEDGER":
-				if !strings.HasSuffix(e.Region, ".GetMintingDenom") && !strings.HasSuffix(e.Region, ".GetBalance") {
-					mutates = true
-				}
-			}
-		}
-		if mutates {
-			continue
-		}
+		// (helpers that act are walked through as well: their effect sites are then targets in
+		// their own right, see FC.expandSpliced)
 		hx := p.tx(h)
 		p.info(h) // threading inside the helper
 		sp := &spliceSite{B: b, H: h, Call: call, ret: map[*ssa.BasicBlock][]int{}}
